@@ -200,6 +200,20 @@ CLAIMED['C14'] = dict(
          'cannot execute in this sandbox: static table only.'),
    note=BASE_TB + ' harness/translate/rngsites.py (Python-ast data-flow, fail-closed) regenerates coq/Gen/RngSites.v; that CMA-ES load_state restores the PRNG key is hand-asserted there and checked by the differential runs.',
    technique='Rocq proof (case analysis over stream sources, list induction) + translator + vm_compute correspondence of the table with observed reproducibility + differential two-run monitor', design='5/C14')
+CLAIMED['C18'] = dict(
+   text=('Theorems: InfeasibleWarperComponent exactly (same length, feasible entries keep order and ties, infeasible entries strictly below '
+         'every feasible one, unwarp inverts warp; closed under the global context); HalfRankComponent: every quantile handed to the normal '
+         'quantile function lies in (0, 1/2) and grows strictly with the label, the variance estimate is positive whenever a label lies below '
+         'the median, hence for ANY strictly increasing quantile function negative below 1/2 and ANY positive square root, distinct labels stay '
+         'distinct and in order, ties stay ties, labels at or above the median are untouched and the others stay below it, missing stays '
+         'missing (C18_halfrank_keeps_ranking, closed); LogWarperComponent, for the formulas translated from the source on every run, offset > 1 '
+         'and min < max: strictly increasing, range [-1/2, 1/2], unwarp(warp y) = y (over Coq reals: classical real axioms); ZScore / Normalize '
+         'are affine with positive slope. C18_source_as_modelled ties the half-rank / infeasible statements, the std-estimate guards and the two '
+         'pipelines to the text of output_warpers.py. PARTIAL: float64 / float32 rounding and overflow, DetectOutliers, TransformToGaussian and the '
+         'end-to-end composition are decided by the monitor on generated label arrays (ties at the top, outliers, 18 orders of magnitude, 1e160, '
+         'NaN / -inf), not by a theorem. Seven defects found and repaired by fix: commits.'),
+   note=BASE_TB + ' harness/translate/warpers.py regenerates coq/Gen/Warpers.v (log-warper formulas translated expression by expression; half-rank and infeasible statements compared textually). scipy.stats.norm.ppf and np.sqrt are parameters of the half-rank theorem. Distinct labels closer than 1e-7 of the range may merge in floating point; the inverse is not checked above 1e100.',
+   technique='Rocq proof (order theory over Q with setoid equality; real analysis for the log warper) + translator + vm_compute correspondence with tolerance + ranking monitor', design='5/C18')
 ALL = ['C%02d' % i for i in range(1, 21)]
 m = {
  'version': 1,
